@@ -454,7 +454,7 @@ def check_C11(tier):
     agg.add(run_native(b, ['--seed', str(seed()), '--cases', cases, '--workdir', wd, '--known', known_tsv('C11')], NCPU, 'C11'))
     rule = ('rapidcheck-generated cases (whole-case shrinking): event stream of 0-40 events (catalogue and odd labels, 0-12 particles, values: exact decimals, 17-digit, tiny/huge, +-0, '
             '15-digit-rounding straddlers) written exactly as bxdecay0-run writes them, cut into 1-7 files with empty / whitespace-only files at any position, (start,max) incl. 0, the end and '
-            'beyond, optional zero_event_time, the reader object built by its configuring constructor / by the default constructor + set_configuration / RE-USED (configured with another window of the same files, partly read, reset_configuration, set_configuration), and a random interleaving of has_next_event/load_next_event followed by a drain; oracle: list model (exactly stream[start:start+max] in order), '
+            'beyond, optional zero_event_time, the reader object built by its configuring constructor / by the default constructor + set_configuration / RE-USED (configured with another window of the same files, partly read, reset_configuration, set_configuration) / after a configuration it had to refuse (white-space-only file followed by a missing file), some files with CR LF line ends, and a random interleaving of has_next_event/load_next_event followed by a drain; oracle: list model (exactly stream[start:start+max] in order), '
             'textual identity of the re-stored event at 15 digits, has_next true => load succeeds, empty window => has_next false, loaded counter; '
             'non-trivial & distinct = (partition shape, window class, stream size) with >=2 non-empty files and a window boundary strictly inside a file')
     return verdict(agg, tier, t0, rule, ['NaN/inf values and empty generator labels are outside the documented format and are not generated', 'loading when no window event remains is not specified and not attempted'], min_eval=1000)
